@@ -72,6 +72,7 @@ func c09Routes(proto string) []routeSpec {
 	return []routeSpec{
 		{Key: "pp", Cluster: "cl-$P-lim", Extra: jmap{"timeout": "300ms"}},
 		{Key: "dead", Cluster: "cl-$P-dead", Extra: jmap{"timeout": "300ms"}},
+		{Key: "hole", Cluster: "cl-$P-hole", Extra: jmap{"timeout": "600ms"}},
 		{Key: "free", Cluster: "cl-$P", Extra: jmap{"timeout": "300ms"}},
 		{Key: "rq", Cluster: "cl-$P-one", Extra: jmap{"timeout": "300ms"}},
 		// capacity tests hold requests for 2.5 s
@@ -90,7 +91,7 @@ func c09ClusterExtra(name string) jmap {
 	return nil
 }
 
-var c09Ops = []string{"ok", "ok", "d40:ok", "s503", "stall", "d700:ok", "close", "rst", "half", "dead", "oneway"}
+var c09Ops = []string{"ok", "ok", "d40:ok", "s503", "stall", "d700:ok", "close", "rst", "half", "dead", "hole", "oneway"}
 
 func c09Engine(c *lab.Ctx) {
 	c.Rule("running MOSN, ping-pong pairings HTTP/1.1 and boltpp, cluster with max_connections=3; all operation sequences of depth <= 2 (3 thorough) over {ok, delayed ok, 5xx, stall->proxy timeout, late reply, close, RST, half response, connect failure, one-way} sequentially, random sequences of depth 12..40, and 8-way concurrent rounds (overflow); per-connection automaton + taint at the upstream, books vs kernel socket table at quiescence, capacity test; distinct = (protocol, operation sequence)")
@@ -112,6 +113,8 @@ func c09Engine(c *lab.Ctx) {
 		switch op {
 		case "dead":
 			key, plan = "dead", "ok"
+		case "hole":
+			key, plan = "hole", "ok" // the connect times out after 150 ms
 		case "rqover":
 			key, plan = "rq", "d60:ok" // cluster with max_requests=2: refused when 2 are in flight
 		case "oneway":
@@ -295,7 +298,7 @@ func c09BooksBad(e *engine, proto string, withBreakers bool) []string {
 			}
 			var port int
 			fmt.Sscanf(addr[strings.LastIndex(addr, ":")+1:], "%d", &port)
-			isOurs := addr == e.dead // the pool of the address nobody listens on: every dial fails, it never owns a connection
+			isOurs := addr == e.dead || addr == e.hole.addr // pools of the addresses no connect to which ever succeeds: they never own a connection
 			for _, u := range e.ups {
 				if u.port() == port {
 					isOurs = true
@@ -306,6 +309,9 @@ func c09BooksBad(e *engine, proto string, withBreakers bool) []string {
 			}
 			idle, total := b.VerifBooks()
 			socks := establishedTo(port)
+			if addr == e.hole.addr {
+				socks = 0 // the established sockets towards that port are the harness's own queue fillers
+			}
 			if total != socks {
 				bad = append(bad, fmt.Sprintf("total-vs-sockets|pool %s %s counts %d connections, the kernel shows %d established", p, addr, total, socks))
 			}
@@ -511,7 +517,7 @@ func c09Steered(c *lab.Ctx, e *engine, proto string, rng *lab.Rand, doOp func(cl
 		c.Distinct(proto + "|steered|" + strings.Join(ops, ">"))
 	}
 	for rep := 0; rep < c.Pick(2, 6); rep++ {
-		for _, op := range []string{"rst", "close", "half", "stall", "d700:ok", "s503", "dead"} {
+		for _, op := range []string{"rst", "close", "half", "stall", "d700:ok", "s503", "dead", "hole"} {
 			run([]string{op, "ok", "ok"})
 			run([]string{"ok", op, "ok", op, "ok"})
 		}
